@@ -18,6 +18,7 @@ from engine import smt
 from . import common as C
 from .common import ctx_for
 from . import taylor
+from engine import fpcheck
 
 HARNESS = C.Harness("h_core.cpp", assertions=True, extra_defines=["VS_STUB_LARGE_INVERSE", "VS_NO_SMALLADJ"])
 
@@ -72,6 +73,18 @@ def _angle_facts(c, g):
         c.sample_filter = lambda vals, names=names: sum(vals[n] ** 2 for n in names) < 9.8
 
 
+def _away_from_pi(g):
+    """the floating-point clause is not claimed within ~1e-6 of the rotation angle pi (documented exclusion)"""
+    fam = C.family(g)
+    if fam in QUAT:
+        lo = {"SO3": 0, "SE3": 3, "SE_2_3": 3, "SGal3": 3}[fam]
+        return lambda vals, k="x%d" % (lo + 3): abs(vals[k]) > 1e-5
+    if fam in ("SO2", "SE2"):
+        re_, im_ = ("x0", "x1") if fam == "SO2" else ("x2", "x3")
+        return lambda vals: not (vals[re_] < 0 and abs(vals[im_]) < 1e-5)
+    return None
+
+
 def check_group(rep, g, tier, seed):
     fam = C.family(g)
     bf = C.base_file(g)
@@ -94,6 +107,7 @@ def check_group(rep, g, tier, seed):
         rep.progress("%s explog[%s]" % (g, path.script))
         sp = c.spec
         taylor.with_taylor(c, TAU, lambda c=c, sp=sp: c.eq("exp_log_is_identity", sp.T(c.vec("Y")), sp.T(c.E["x"])))
+        fpcheck.compare(rep, c, ["t", "Y"], 1e-9, "log_and_exp_log_values", n=5, sample_ok=_away_from_pi(g))
     if n == 0:
         rep.undecide("C03/%s/explog/feasible_paths" % g, "FEAS", "z3", "no feasible path (vacuity guard)")
 
